@@ -32,6 +32,7 @@ def _maps(terms):
 def slices(tier):
     out = _slices(tier)
     for sl in out:
+        sl.repl_closure = sl.name == "replace-twice"  # environments p(q(e)) for two replace actions in one program
         if not sl.jets:
             sl.replacements = _maps(sl.terminals)
     return out
@@ -53,6 +54,11 @@ def _slices(tier):
     out.append(Slice("under-derivative", [("w", ()), ("dv", ()), F, G], {"mul", "add", "pow"}, 4, lits=[LIT["two"]], jets=gj, nenv=1, tiny=True,
                      levels=[{"mul", "add", "pow"}, {"gateaux1"}, RP, {"expand_derivatives"}], finalops={"expand_derivatives"}, only_final=True, chain="strict",
                      replacements=[("f", ("term", "w")), ("f", ("prod", "g", "w")), ("f", ("sum", "g", "w")), ("g", ("term", "f"))]))
+    # replace applied to the RESULT of an earlier replace combined with the original: two variables that share a label
+    # but wrap different expressions (variable(f) and its image under f -> g) meet in one expression
+    out.append(Slice("replace-twice", [F, G], {"variable", "abs", "mul", "add"}, 6, nenv=1, tiny=True,
+                     levels=[{"variable"}, {"abs", "mul"}, RP, {"add", "mul"}, RP, {"point_eval"}], finalops={"point_eval"}, only_final=True, chain="semi",
+                     replacements=[("f", ("term", "g")), ("g", ("scale", 2, "f"))]))
     if not q:
         out += [
             Slice("r2-mid", [F, G, H, U, V, W], E1, 3, idx=(10,), levels=[{"mul", "index", "dot", "abs", "variable", "lt", "add"}, E2, RP], mikinds=("name", "fixed"), **kw),
